@@ -33,14 +33,23 @@ def rule_token_conv(ctx: Ctx, rid="C05.TOKEN-CONV"):
             ctx.rep.bad(rid, con, f"the token action transforms the literal in a way that is not a plain conversion: {note or k[1]}",
                         site=r.site, text=norm(r.func)[:200])
             continue
-        ok = kind in ACCEPTED_CONVERSIONS and len(rew) == 1 and rew[0] in ACCEPTED_CONVERSIONS[kind] and not a.other_calls == ["x"] \
-            and a.returns_token and not a.returns_none and not a.type_rewrites
-        extra_calls = [c for c in a.other_calls if c not in ("int", "float", "str")]
+        retyped_ok = all(t_.strip("'\"") in lc.tokens for t_ in a.type_rewrites)
+        # every rewrite of the value is a plain conversion of (a piece cut out of) the matched text: int(...), float(...),
+        # str(...), or the slice [1:-1]; pieces may come from partition()/split tests, which do not alter characters
+        def plain(x):
+            x = x.strip()
+            if x in ("t.value[1:-1]", "str(t.value[1:-1])"):
+                return True
+            m_ = __import__("re").fullmatch(r"(int|float)\((\w+(\.value)?)\)", x)
+            return bool(m_)
+        ok = bool(rew) and all(plain(x) for x in rew) and a.returns_token and not a.returns_none and retyped_ok
+        harmless = ("partition", "rpartition", "isdigit", "isdecimal", "startswith", "endswith", "count", "find", "index")
+        extra_calls = [c for c in a.other_calls if c not in ("int", "float", "str", "len") and c.split(".")[-1] not in harmless]
         ok = ok and not extra_calls
         ctx.rep.check(ok, rid, con, f"value = {rew[0]} (exact conversion of the matched text)" if ok else
                       f"the literal's token value is produced by {rew} with calls {a.other_calls}: more than the conversion / "
                       "delimiter stripping (literal content is rewritten)", site=r.site, text=f"{r.name}: {rew} {sorted(set(a.other_calls))}")
-    ctx.rep.floor("literal token actions", n, 3)
+    ctx.rep.floor("literal token actions", n, 2)
     # the string rule strips exactly its two delimiters: every alternative of the pattern starts and ends with a quote
     L = ctx.lexicon(lc.name)
     for i, r in enumerate(lc.rules):
